@@ -16,6 +16,7 @@ import (
 	"bufio"
 	"bytes"
 	"crypto/tls"
+	"encoding/base64"
 	"fmt"
 	"strings"
 	"sync"
@@ -26,6 +27,7 @@ import (
 	"github.com/emersion/go-imap/v2/verif/internal/hx"
 	"github.com/emersion/go-imap/v2/verif/internal/kit"
 	"github.com/emersion/go-imap/v2/verif/internal/vconn"
+	"github.com/emersion/go-sasl"
 )
 
 // ---- server side ---------------------------------------------------------------
@@ -113,6 +115,131 @@ func serverSide(w *hx.W) {
 			w.Enumerated(1)
 		}
 		srv.Close()
+	}
+}
+
+// credentialPolicy: on an unencrypted connection the server offers and accepts credentials only
+// when InsecureAuth is set, whatever its TLS configuration and whatever kind of session the
+// backend provides; once the connection is encrypted (STARTTLS or implicit TLS) it does both.
+func credentialPolicy(w *hx.W) {
+	plainIR := base64.StdEncoding.EncodeToString([]byte("\x00MARKERUSER\x00pw"))
+	for _, withTLS := range []bool{false, true} {
+		for _, insecure := range []bool{false, true} {
+			for _, kind := range []kit.SessKind{kit.SessFull, kit.SessSASLk, kit.SessPlain} {
+				srv := kit.NewServer(kit.ServerCfg{Caps: imap.CapSet{imap.CapIMAP4rev1: {}}, InsecureAuth: insecure, TLS: withTLS, Kind: kind})
+				srv.B.Mechs = []string{"PLAIN"}
+				srv.B.Handler = func(s *kit.Sess, c *kit.Call, wr *kit.Writers) kit.Result {
+					if c.Method == "Authenticate" {
+						return kit.Result{SASL: sasl.NewPlainServer(func(identity, username, password string) error {
+							return s.Login(username, password)
+						})}
+					}
+					return kit.DefaultHandler(s, c, wr)
+				}
+				cfg := fmt.Sprintf("tlsconfig=%v/insecure=%v/kind=%d", withTLS, insecure, kind)
+				offered := func(out []byte) (auth, disabled bool) {
+					return bytes.Contains(out, []byte("AUTH=")), bytes.Contains(out, []byte("LOGINDISABLED"))
+				}
+				reached := func(base int) []string {
+					var m []string
+					for _, c := range srv.B.CallsSince(base) {
+						if c.Method == "Login" || c.Method == "Authenticate" {
+							m = append(m, c.Method)
+						}
+					}
+					return m
+				}
+				attempts := []struct{ name, first, second string }{
+					{"LOGIN", "p1 LOGIN MARKERUSER pw\r\n", ""},
+					{"LOGIN-literal", "p1 LOGIN {10+}\r\nMARKERUSER {2+}\r\npw\r\n", ""},
+					{"AUTHENTICATE-IR", "p1 AUTHENTICATE PLAIN " + plainIR + "\r\n", ""},
+					{"AUTHENTICATE", "p1 AUTHENTICATE PLAIN\r\n", plainIR + "\r\n"},
+					{"authenticate-lowercase", "p1 authenticate plain " + plainIR + "\r\n", ""},
+				}
+				for _, at := range attempts {
+					// plaintext connection
+					r := srv.Dial()
+					greet, _ := r.Sync()
+					r.SendStr("c1 CAPABILITY\r\n")
+					capOut, _ := r.Sync()
+					for where, out := range map[string][]byte{"greeting": greet, "CAPABILITY": capOut} {
+						auth, disabled := offered(out)
+						if auth != insecure || disabled == insecure {
+							w.Violation(fmt.Sprintf("server-auth-advertised-on-plaintext/%s/%s", cfg, where), fmt.Sprintf("%s on a plaintext connection [%s]: AUTH= advertised=%v LOGINDISABLED=%v (%q)", where, cfg, auth, disabled, out), nil)
+						}
+					}
+					base := srv.B.NCalls()
+					r.SendStr(at.first)
+					out, _ := r.Sync()
+					if at.second != "" && bytes.HasPrefix(out, []byte("+")) {
+						r.SendStr(at.second)
+						o2, _ := r.Sync()
+						out = append(out, o2...)
+					}
+					got := reached(base)
+					if (len(got) > 0) != insecure {
+						w.Violation(fmt.Sprintf("server-credentials-on-plaintext/%s/%s", cfg, at.name), fmt.Sprintf("%s on a plaintext connection [%s]: backend calls %v (%q)", at.name, cfg, got, out), nil)
+					}
+					if !insecure && bytes.Contains(out, []byte("p1 OK")) {
+						w.Violation(fmt.Sprintf("server-credentials-on-plaintext/%s/%s", cfg, at.name), fmt.Sprintf("%s answered OK on a plaintext connection [%s] (%q)", at.name, cfg, out), nil)
+					}
+					r.Close()
+					w.Enumerated(1)
+					w.Class("server/credential-policy/plaintext/" + cfg)
+					if !withTLS {
+						continue
+					}
+					// after STARTTLS and over implicit TLS credentials are offered and accepted
+					for _, how := range []string{"starttls", "implicit"} {
+						var rt *kit.Raw
+						if how == "implicit" {
+							var err error
+							rt, err = srv.DialTLS()
+							if err != nil {
+								w.Violation("harness-tls", "implicit TLS dial failed: "+err.Error(), nil)
+								continue
+							}
+							rt.Sync()
+						} else {
+							rt = srv.Dial()
+							rt.Sync()
+							rt.SendStr("s1 STARTTLS\r\n")
+							o, _ := rt.Sync()
+							if !bytes.Contains(o, []byte("s1 OK")) {
+								w.Violation("server-starttls-refused/"+cfg, fmt.Sprintf("STARTTLS refused although a TLS configuration is present [%s] (%q)", cfg, o), nil)
+								rt.Close()
+								continue
+							}
+							if err := rt.StartTLSUpgrade(); err != nil {
+								w.Violation("server-starttls-handshake/"+cfg, "handshake failed: "+err.Error(), nil)
+								rt.Close()
+								continue
+							}
+						}
+						rt.SendStr("c1 CAPABILITY\r\n")
+						co, _ := rt.Sync()
+						if auth, disabled := offered(co); !auth || disabled {
+							w.Violation(fmt.Sprintf("server-auth-not-offered-over-tls/%s/%s", cfg, how), fmt.Sprintf("CAPABILITY over TLS (%s) [%s]: %q", how, cfg, co), nil)
+						}
+						b2 := srv.B.NCalls()
+						rt.SendStr(at.first)
+						o, _ := rt.Sync()
+						if at.second != "" && bytes.HasPrefix(o, []byte("+")) {
+							rt.SendStr(at.second)
+							o2, _ := rt.Sync()
+							o = append(o, o2...)
+						}
+						if g := reached(b2); len(g) == 0 || !bytes.Contains(o, []byte("p1 OK")) {
+							w.Violation(fmt.Sprintf("server-credentials-refused-over-tls/%s/%s/%s", cfg, how, at.name), fmt.Sprintf("%s over TLS (%s) [%s]: backend calls %v (%q)", at.name, how, cfg, g, o), nil)
+						}
+						rt.Close()
+						w.Enumerated(1)
+						w.Class("server/credential-policy/" + how + "/" + cfg)
+					}
+				}
+				srv.Close()
+			}
+		}
 	}
 }
 
@@ -252,7 +379,15 @@ func clientCase(w *hx.W, greeting, suffix string, cuts []int, ci int) {
 				obs.mu.Unlock()
 			},
 			Expunge: func(n uint32) { obs.mu.Lock(); obs.expunge++; obs.mu.Unlock() },
-			Fetch:   func(m *imapclient.FetchMessageData) { obs.mu.Lock(); obs.fetch++; obs.mu.Unlock(); go func() { for m.Next() != nil {} }() },
+			Fetch: func(m *imapclient.FetchMessageData) {
+				obs.mu.Lock()
+				obs.fetch++
+				obs.mu.Unlock()
+				go func() {
+					for m.Next() != nil {
+					}
+				}()
+			},
 		},
 	}
 	viol := func(class, detail string) {
@@ -444,6 +579,9 @@ func clientSide(w *hx.W) {
 }
 
 func body(w *hx.W) {
+	if w.Shard == 0 {
+		credentialPolicy(w)
+	}
 	kit.SyncTimeout = 60 * time.Second
 	serverSide(w)
 	clientSide(w)
@@ -455,7 +593,7 @@ func main() {
 	hx.Main(hx.Spec{
 		ID:    "C17",
 		Level: "exploration",
-		Rule: "server: 12 plaintext command suffixes after the STARTTLS line x every split of the byte string into two writes + one write + byte-at-a-time x InsecureAuth on/off; client: 12 plaintext response suffixes after the STARTTLS OK x the same split enumeration x greetings {OK with/without capabilities, PREAUTH x2, BYE}; each (suffix, split, configuration) is a distinct case",
+		Rule:  "server: 12 plaintext command suffixes after the STARTTLS line x every split of the byte string into two writes + one write + byte-at-a-time x InsecureAuth on/off; client: 12 plaintext response suffixes after the STARTTLS OK x the same split enumeration x greetings {OK with/without capabilities, PREAUTH x2, BYE}; each (suffix, split, configuration) is a distinct case",
 		Assumptions: []string{
 			"injected commands / responses carry unique markers (MARKERUSER, MARKERBOX, XMARKER, tags m1/m2/T2): any backend call, response, capability or callback carrying a marker is attributed to the injected plaintext",
 			"bytes that follow the STARTTLS exchange may be consumed by the TLS handshake (which then fails) or dropped; both satisfy the property",
